@@ -102,6 +102,10 @@ Proof. exact conn_sequence_succeeds_when_nothing_fails. Qed.
    a Dial and an OnConnect on that same path *)
 Theorem C14_connect_paths : connect_paths_ordered = true. Proof. exact paths_connect_order. Qed.
 
+(* on every path through the function body as it is in the source now (regenerated into Generated.body_census, enumerated by Model/Paths.v) of Connection.doReconnect: OnDisconnected first and once, one retry loop, waiters released under the mutex after it *)
+Theorem C14_source_doreconnect_paths : doreconnect_paths = true.
+Proof. exact paths_doreconnect. Qed.
+
 Print Assumptions C14_one_dial_in_progress.
 Print Assumptions C14_sequence_shape.
 Print Assumptions C14_outcome_functional.
@@ -117,3 +121,4 @@ Print Assumptions C14_connect_paths.
 Print Assumptions C14_sequence_can_finish.
 Print Assumptions C14_waiter_can_be_released.
 Print Assumptions C14_sequence_succeeds_when_nothing_fails.
+Print Assumptions C14_source_doreconnect_paths.
